@@ -396,17 +396,46 @@ def walk(m):
 def refused(f):
     try: f(); return False
     except Exception as e: print("  refused:", type(e).__name__, e); return True
+def run(code):                # one operation of the history; a refusal is reported, not fatal
+    try: exec(code, globals()); return True
+    except Exception as e: print("  refused: %s -> %s: %s" % (code, type(e).__name__, e)); return False
+def is_open(m):
+    return any(v is m for v in mx.get_models().values())
+def holders(m, v):            # [(space path, name)] of the references of m bound to v
+    return [((s.fullname.split(".")[1:] if s is not m else []), k) for s in walk(m) for k, x in s.refs.items() if x is v]
+def write_read(models):       # every live spec's value is written to its file and read back equal
+    info = []
+    for i, m in enumerate(models):
+        root = os.path.join(tmp, "w%d" % i); m.write(root); specs = list(m.iospecs)
+        for sp in specs:
+            if not sp.path.is_absolute() and not os.path.exists(os.path.join(root, str(sp.path))): bad.append("%s not written" % sp.path)
+        info.append((root, [(sp.value, holders(m, sp.value)) for sp in specs], len(specs)))
+    if any(sp.path.is_absolute() for m in models for sp in m.iospecs):
+        for m in (m1, m2):    # a file outside the model folders is shared by the session: release it first
+            if is_open(m): m.close()
+    for root, vals, n in info:
+        rb = mx.read_model(root, name="RB")
+        for v, hs in vals:
+            for parts, k in hs:
+                t = rb
+                for p in parts: t = t.spaces[p]
+                if k not in t.refs or not same(v, t.refs[k]): bad.append("%s.%s reads back different" % (".".join(parts), k))
+                elif refused(lambda: rb.get_spec(t.refs[k])): bad.append("%s.%s has no spec after reading" % (".".join(parts), k))
+        if len(rb.iospecs) != n: bad.append("%d specs read back, %d written" % (len(rb.iospecs), n))
+        rb.close()
 def same(v1, v2):
     if inspect.ismodule(v1): return inspect.getsource(v1) == inspect.getsource(v2)
     return type(v1) is type(v2) and v1.shape == v2.shape and (v1.to_numpy() == v2.to_numpy()).all() \\
         and list(map(str, v1.index)) == list(map(str, v2.index))
 try:
-    for n, s in %r.items(): open(os.path.join(tmp, n + ".py"), "w").write(s)
-''' % (MOD_SRC,)
+    for n, s in @@MOD_SRC@@.items(): open(os.path.join(tmp, n + ".py"), "w").write(s)
+'''.replace("@@MOD_SRC@@", repr(MOD_SRC))
 
 
 def make_script(env, a, tag, nsteps, expected_ok_failed=False, rejected_step=False):
-    """Self-contained replay: exits 1 iff the property is violated at the end of the (truncated) history."""
+    """Self-contained replay: exits 1 iff the property is violated at the end of the (truncated) history.
+    Every operation goes through run() (a refusal is printed and the replay goes on), so the script also
+    terminates normally on a tree where modelx accepts / refuses other operations than it did here."""
     L = [SCRIPT_HEAD]
     ind = "    "
     for ln in fixture_text(env.hist).strip().split("\n"):
@@ -417,54 +446,41 @@ def make_script(env, a, tag, nsteps, expected_ok_failed=False, rejected_step=Fal
         last = i == len(lines) - 1
         is_create = ".new_pandas(" in code or ".new_module(" in code
         if last and rejected_step:
-            L.append(ind + "before = snap([m for m in (m1, m2) if m.name in mx.get_models()])")
+            L.append(ind + "before = snap([m for m in (m1, m2) if is_open(m)])")
         if is_create:
             L.append(ind + "known = set(allspecs())")
-        if accepted or (last and expected_ok_failed):
-            if last and expected_ok_failed:
-                L.append(ind + "try:")
-                L.append(ind * 2 + code)
-                L.append(ind + "except Exception as e: bad.append('refused: %s: %s' % (type(e).__name__, e))")
-            else:
-                L.append(ind + code)
+        if last and expected_ok_failed:
+            L.append(ind + "if not run(%r): bad.append('modelx refused an operation that must succeed')" % code)
+        elif last and rejected_step:
+            L.append(ind + "if not run(%r) and snap([m for m in (m1, m2) if is_open(m)]) != before: "
+                           "bad.append('the refused operation changed references / specs / IO files')" % code)
         else:
-            target = code.split(" = ", 1)[1] if (" = " in code and is_create) else code
-            if " = " in target and not is_create:      # an assignment statement
-                L.append(ind + "try: " + target)
-                L.append(ind + "except Exception as e: print('  refused:', type(e).__name__, e)")
-            elif target.startswith("del "):
-                L.append(ind + "try: " + target)
-                L.append(ind + "except Exception as e: print('  refused:', type(e).__name__, e)")
-            else:
-                L.append(ind + "refused(lambda: %s)" % target.split(";")[0])
+            L.append(ind + "run(%r)" % code)
         if is_create:
             mtok = "M2" if code.startswith("A2.") or code.startswith("m2.") or " = A2." in code or " = m2." in code else "M1"
             L.append(ind + "mine[%r] |= set(allspecs()) - known" % mtok)
-        if last and rejected_step:
-            L.append(ind + "if snap([m for m in (m1, m2) if m.name in mx.get_models()]) != before: "
-                           "bad.append('the refused operation changed references / specs / IO files')")
     # generic end-of-history checks, straight from the statement
     L.append(ind + "try: mx.core.mxsys._check_sanity()")
     L.append(ind + "except AssertionError as e: bad.append('_check_sanity: %r' % (e,))")
     for m in ("M1", "M2"):
         v = VAR[m]
-        if a.open[m]:
-            L.append(ind + "for sp in list(%s.iospecs) + registered(%s, mine[%r]):" % (v, v, m))
-            L.append(ind * 2 + "if id(sp.value) not in bound(%s): bad.append('%s: %%r has no reference to its value' %% sp)" % (v, m))
-            L.append(ind + "if {id(s) for s in registered(%s, mine[%r])} - {id(s) for s in %s.iospecs}: "
+        L.append(ind + "if is_open(%s):" % v)
+        L.append(ind * 2 + "for sp in list(%s.iospecs) + registered(%s, mine[%r]):" % (v, v, m))
+        L.append(ind * 3 + "if id(sp.value) not in bound(%s): bad.append('%s: %%r has no reference to its value' %% sp)" % (v, m))
+        L.append(ind * 2 + "if {id(s) for s in registered(%s, mine[%r])} - {id(s) for s in %s.iospecs}: "
                            "bad.append('%s: a registered spec is not in iospecs')" % (v, m, v, m))
-            for s_ in a.live(m):
-                L.append(ind + "if id(%s) in bound(%s) and not any(sp.value is %s for sp in registered(%s, mine[%r])): "
+        for s_ in a.live(m):
+            L.append(ind * 2 + "if id(%s) in bound(%s) and not any(sp.value is %s for sp in registered(%s, mine[%r])): "
                                "bad.append('%s is bound in %s but its spec is gone')" % (s_.tok, v, s_.tok, v, m, s_.tok, m))
+        if tag == "ref-state" and a.open[m]:
             for (loc, n) in sorted({(l, n) for l in VAR if a.loc_ok(l) and model_of(l) == m for n in NAMES}):
                 tok = a.visible(loc, n)
                 if tok is None:
-                    L.append(ind + "if %r in %s.refs: bad.append('%s.%s exists')" % (n, VAR[loc], loc, n))
+                    L.append(ind * 2 + "if %r in %s.refs: bad.append('%s.%s exists')" % (n, VAR[loc], loc, n))
                 else:
-                    L.append(ind + "if %r not in %s.refs or %s.refs[%r] is not %s: bad.append('%s.%s is not %s')" % (
+                    L.append(ind * 2 + "if %r not in %s.refs or %s.refs[%r] is not %s: bad.append('%s.%s is not %s')" % (
                         n, VAR[loc], VAR[loc], n, tok, loc, n, tok))
-        else:
-            L.append(ind + "if registered(%s, mine[%r]): bad.append('%s is closed but the IO manager keeps %%r' %% registered(%s, mine[%r]))" % (v, m, m, v, m))
+        L.append(ind + "elif registered(%s, mine[%r]): bad.append('%s is closed but the IO manager keeps %%r' %% registered(%s, mine[%r]))" % (v, m, m, v, m))
     L.append(ind + "claims = [(str(g), str(p), getattr(sp, 'sheet', None) if getattr(io, 'file_type', '') == 'excel' else '*')")
     L.append(ind + "          for (g, p), io in mx.core.mxsys.iomanager.ios.items() for sp in io.specs.values()]")
     L.append(ind + "if len(claims) != len(set(claims)): bad.append('two specs claim the same location')")
@@ -475,28 +491,7 @@ def make_script(env, a, tag, nsteps, expected_ok_failed=False, rejected_step=Fal
                 n = sum(1 for (loc, _), t in a.refs.items() if model_of(loc) == m and t != "ifB")
                 L.append(ind + "if sum(map(len, %s._impl.refmgr._valid_to_refs.values())) != %d: bad.append('%s: _valid_to_refs does not hold the %d defined references')" % (VAR[m], n, m, n))
     if tag == "write-read":
-        models = [m for m in ("M1", "M2") if a.open[m] and a.live(m)]
-        L.append(ind + "try:")
-        for m in models:
-            L.append(ind * 2 + "%s.write(tmp + '/w_%s')" % (VAR[m], m))
-            for s_ in a.live(m):
-                if not s_.file.startswith("@"):
-                    L.append(ind * 2 + "if not os.path.exists(tmp + '/w_%s/%s'): bad.append('%s not written')" % (m, s_.file, s_.file))
-        if any(s_.file.startswith("@") for s_ in a.live()):
-            L.append(ind * 2 + "# a file outside the model folders is shared by the session: release it before reading the copies")
-            for m in ("M1", "M2"):
-                if a.open[m]:
-                    L.append(ind * 2 + "%s.close()" % VAR[m])
-        for m in models:
-            L.append(ind * 2 + "rb = mx.read_model(tmp + '/w_%s', name='RB')" % m)
-            for s_ in a.live(m):
-                for (loc, n) in a.holders(s_.tok, m):
-                    expr = "rb" + "".join(".spaces[%r]" % p for p in loc.split(".")[1:]) + ".refs"
-                    L.append(ind * 2 + "if %r not in %s or not same(%s, %s[%r]): bad.append('%s.%s reads back different')" % (
-                        n, expr, s_.tok, expr, n, loc, n))
-                    L.append(ind * 2 + "elif refused(lambda: rb.get_spec(%s[%r])): bad.append('%s.%s has no spec after reading')" % (expr, n, loc, n))
-            L.append(ind * 2 + "if len(rb.iospecs) != %d: bad.append('%%d specs read back' %% len(rb.iospecs))" % len(a.live(m)))
-            L.append(ind * 2 + "rb.close()")
+        L.append(ind + "try: write_read([m for m in (m1, m2) if is_open(m) and m.iospecs])")
         L.append(ind + "except Exception as e: bad.append('write/read: %s: %s' % (type(e).__name__, e))")
     L.append("finally:")
     L.append(ind + "shutil.rmtree(tmp, ignore_errors=True)")
@@ -520,9 +515,11 @@ def run_history(hist, tmp, uid, do_write, seen_sigs):
         a.cells = {}
     o_prev = env.observe(a)
     fp_prev = env.fingerprint(o_prev)
+    last_feats = []
+    diverged_accept = False
     for i, op in enumerate(hist):
         expected, predicted = a.predict(op)
-        feats = a.features(op)
+        feats = last_feats = a.features(op)
         refmodes = None
         if op[0] in ("upd", "updmod"):
             refmodes = _refmodes(env, a, op)
@@ -567,12 +564,17 @@ def run_history(hist, tmp, uid, do_write, seen_sigs):
         a = b
         fp_prev = fp
         if accepted != predicted:
-            break               # the enumeration assumed the other outcome: the rest of the history is not defined
-    if do_write and a.live():
+            # the enumeration assumed the other outcome: the rest of the history is not defined; an operation that
+            # was accepted although the model expected a refusal gets its write/read-back checked right here
+            diverged_accept = accepted
+            break
+    else:
+        diverged_accept = False
+    if (do_write or diverged_accept) and a.live():
         sig = (tuple(sorted(a.refs.items())), tuple((s.model, s.file, s.sheet, s.tok, s.alive) for s in a.specs),
                tuple(sorted(a.spaces)), a.inh)
         out.sig = sig
-        if sig not in seen_sigs:
+        if diverged_accept or sig not in seen_sigs:
             seen_sigs.add(sig)
             out.wr_done = True
             problem = env.write_read(a)
@@ -586,7 +588,9 @@ def run_history(hist, tmp, uid, do_write, seen_sigs):
                             (["after-update"] if any(h[0] in ("upd", "updmod") for h in hist[:out.steps]) else []) +
                             (["after-setpath"] if any(h[0] == "setpath" for h in hist[:out.steps]) else []) +
                             (["after-setsheet"] if any(h[0] == "setsheet" for h in hist[:out.steps]) else []) +
-                            (["shared-file"] if len({(s.model, s.file) for s in a.live()}) < len(a.live()) else []),
+                            (["shared-file"] if len({(s.model, s.file) for s in a.live()}) < len(a.live()) else []) +
+                            (["after-accepted-" + t for t in last_feats if t.startswith("location-")]
+                             if diverged_accept else []),
                     "what": "after %s: %s" % ("; ".join(c for c, _ in env.lines), text),
                     "script": make_script(env, a, "write-read", out.steps),
                     "case": tuple(hist[:out.steps]) + ("write-read",),
@@ -677,10 +681,14 @@ def _random_histories(rng, n, lo, hi):
 
 
 def wr_signature(a, h):
-    """What matters for write/read-back: file layout, value kinds, where the holders are, what was updated/moved."""
-    return (tuple(sorted((s.model, s.file, s.sheet, s.tok[:2], tuple(sorted({k[0] for k in a.holders(s.tok, s.model)})))
-                         for s in a.specs if s.alive)), a.inh, tuple(sorted(a.marks)),
-            tuple(sorted({op[0] for op in h if op[0] in ("upd", "updmod", "setpath", "setsheet", "mrename")})))
+    """What matters for write/read-back: file layout, value kinds, the levels of the holders, what was updated/moved."""
+    return (tuple(sorted((s.model, s.file, s.sheet, s.tok[:2],
+                          tuple(sorted({k[0].count(".") for k in a.holders(s.tok, s.model)})))
+                         for s in a.specs if s.alive)),
+            a.inh and any(k[0] == "M1.A" for s in a.specs if s.alive for k in a.holders(s.tok, s.model)),
+            tuple(sorted(a.marks)),
+            tuple(sorted({op[0] + (":" + str(op[3]) if op[0] in ("upd", "updmod") else "")
+                          for op in h if op[0] in ("upd", "updmod", "setpath", "setsheet", "mrename")})))
 
 
 def wr_representatives(plan, cap):
@@ -696,10 +704,8 @@ def wr_representatives(plan, cap):
                 if s not in sigs:
                     sigs[s] = h
     hs = list(sigs.values())
-    if len(hs) > cap:
-        step = len(hs) / float(cap)
-        hs = [hs[int(i * step)] for i in range(cap)]
-    return hs, len(sigs)
+    random.Random(0).shuffle(hs)          # so that an unfinished run still covers every kind of configuration
+    return hs[:cap], len(sigs)
 
 
 def dfs_tasks(depth, min_ext, max_ext, deadline):
@@ -717,7 +723,16 @@ def dfs_tasks(depth, min_ext, max_ext, deadline):
             continue
         for op2 in nxt:
             tasks.append(("dfs", ([op1, op2], depth, min_ext, max_ext), deadline, 0))
-    return tasks
+    # interleave the first ops, so that an unfinished run has touched every kind of first operation
+    by1 = {}
+    for t in tasks:
+        by1.setdefault(t[1][0][0], []).append(t)
+    out = []
+    while any(by1.values()):
+        for k in list(by1):
+            if by1[k]:
+                out.append(by1[k].pop(0))
+    return out
 
 
 def run(res, tier, seed):
@@ -725,7 +740,7 @@ def run(res, tier, seed):
     nproc = max(1, min(14, (os.cpu_count() or 2) - 2))
     # (label, depth, min_ext, max_ext): disjoint parts, most valuable first; a part is either finished or reported unfinished
     if quick:
-        parts = [("len<=3, <=2 extended ops", 3, 0, 2), ("WR", [(3, 0, 2)], 600),
+        parts = [("len<=3, <=2 extended ops", 3, 0, 2), ("WR", [(3, 0, 2)], 1500),
                  ("len 4, <=1 extended op", 4, 0, 1), ("len 3, 3 extended ops", 3, 3, 3)]
     else:
         parts = [("len<=3, any ops", 3, 0, 3), ("WR", [(3, 0, 3), (4, 0, 1)], 4000),
